@@ -17,6 +17,7 @@ import json
 import os
 import random
 import shutil
+import time
 
 import vlib
 
@@ -192,17 +193,21 @@ def trace_line(case, dcase, events):
 
 
 def describe(case, dcase):
-    ops = "; ".join('%s "%s"' % (o["op"], o.get("path", "")) + (" from %s" % o["from"] if "from" in o else "") for o in dcase["ops"][:1])
+    o = dcase["ops"][0]
+    req = 'request "%s"' % o.get("path", "") + (" included from %s" % o["from"] if "from" in o else "")
     maps = ", ".join("%s->%s" % (virt_text(m["virt"]), m["root"]) for m in case["mappings"])
     trees = ", ".join("%s:{%s}" % (r, " ".join("/".join(p) for p in case["trees"][r])) for r in ROOTS if case["trees"][r])
-    return "mappings [%s] trees [%s] request %s" % (maps, trees, ops)
+    return "mappings [%s] trees [%s] %s" % (maps, trees, req)
 
 
 # ------------------------------------------------------------------------------------------------
 def run_cases(cases, wdir, tag, mat, chunks=None):
     """materialise, drive, validate. -> (bad entries, totals, tlc results, trace lines by id, driver cases by id)"""
+    t0 = time.time()
     dcases = [driver_case(c, mat) for c in cases]
-    events = vlib.run_driver("vfs", dcases, wdir, kind="rel", timeout_s=30, tag=tag)
+    t1 = time.time()
+    events = vlib.run_driver("vfs", dcases, wdir, kind="rel", timeout_s=4, tag=tag)
+    t2 = time.time()
     by = vlib.events_by_case(events)
     lines = {}
     execs = []
@@ -211,6 +216,7 @@ def run_cases(cases, wdir, tag, mat, chunks=None):
         lines[c["id"]] = ln
         execs.append((c["id"], [ln]))
     bad, totals, results = vlib.validate_traces("Vfs_Trace", "Vfs_Trace.cfg", execs, wdir, tag, chunks=chunks)
+    vlib.log("[C16] %s: %d cases, materialise %.1fs, driver %.1fs, TLC validation %.1fs" % (tag, len(cases), t1 - t0, t2 - t1, time.time() - t2))
     return bad, totals, results, lines, {d["id"]: d for d in dcases}
 
 
@@ -231,7 +237,8 @@ def run(rep, tier, seed, replay):
         "ResolvesToReference is asserted only for requests whose '..' segments are applied inside the virtual tree (nodes of mapped "
         "prefixes); for '..' inside the unmatched remainder and for absolute physical paths that lie inside a mapped root only "
         "Contained is asserted (the statement fixes nothing more)",
-        "a request that names a directory is not asserted beyond Contained (NOTOKEN/EXC accepted where the reference finds no file)",
+        "a request that names a directory (also: any request with trailing separators) is not asserted beyond Contained "
+        "(NOTOKEN/EXC accepted where the reference finds no file)",
         "#include paths are never rendered with '//' (the preprocessor takes it as a comment - C13 territory): such renderings use the "
         "mixed separator style",
         "current file = an includer x in a mapped root or its directory a; script operators have no current file",
@@ -261,11 +268,29 @@ def run(rep, tier, seed, replay):
         cmap = {c["id"]: c for c in cases}
         for c in cases[:2] + cases[len(cases) // 2:len(cases) // 2 + 2] + cases[-2:]:
             rep.samples.append({"case": describe(c, dcases[c["id"]]), "observed": [[o["op"], o["k"], o["root"], "/".join(o["rel"])] for o in lines[c["id"]]["obs"]]})
+        with open(os.path.join(wdir, "c16.bad.json"), "w") as f:
+            json.dump([{"bad": b, "case": cmap[b["id"]], "line": lines[b["id"]]} for b in bad], f)
         groups = {}
         for b in bad:
             if b["why"].startswith("MACHINERY"):
                 raise vlib.MachineryError("case void (binding): %s %s" % (b, json.dumps(cmap[b["id"]])))
             groups.setdefault("C16/%s/%s" % (b["why"], b["op"]), []).append(b)
+        clusters = {}
+        for b in bad:
+            c = cmap[b["id"]]
+            ob = [o for o in lines[b["id"]]["obs"] if o["op"] == b["op"]]
+            q = c["req"]
+            roots = [m["root"] for m in c["mappings"]]
+            sig = "%s/%s obs=%s req=%s%s%s%s" % (b["why"], b["op"], ob[0]["k"] if ob else "crash(" + lines[b["id"]]["crash"] + ")",
+                                               ("phys-" + ("out" if q["base"] == "out" else "root")) if q["base"] else ("abs" if q["abs"] else "rel"),
+                                               " dotdot" if ".." in q["segs"] else "", " backslash" if c["style"] != "slash" and q["segs"] else "",
+                                               " root-mapped-twice" if len(set(roots)) < len(roots) else "")
+            ent = clusters.setdefault(sig, {"count": 0, "witness": None, "w": None})
+            ent["count"] += 1
+            if ent["w"] is None or weight(c) < ent["w"]:
+                ent["w"] = weight(c)
+                ent["witness"] = describe(c, dcases[c["id"]])
+        rep.extra["finding_clusters"] = [{"cluster": k, "count": v["count"], "witness": v["witness"]} for k, v in sorted(clusters.items())]
         # ---- confirm one minimal witness per key on a fresh run in its own directory
         witnesses = {}
         for key, bs in sorted(groups.items()):
@@ -301,6 +326,7 @@ def run(rep, tier, seed, replay):
 # ------------------------------------------------------------------------------------------------
 def generate(rep, tier, rng):
     quick = tier == "quick"
+    t0 = time.time()
     # ---- 1. design check: the reference satisfies every formula on the complete product
     r = vlib.tlc("Vfs_MC", mc_cfg("mc_ref", "product", maxmaps=2, nroots=2, shapes=("empty", "full") if quick else ("empty", "full", "deep"),
                                   maxlen=3, bases=("", "out", "r1", "r3")), workers=vlib.NCPU, timeout_s=1500, xmx="16g")
@@ -328,6 +354,7 @@ def generate(rep, tier, rng):
                                    invariants=["InvContained"]), workers=vlib.NCPU, timeout_s=900)
     rep.design_runs.append({"what": "transcribed get_info_virtual satisfies Contained (prediction): %s" % ("yes" if r3.ok else "NO: " + str(r3.violated)),
                             "generated": r3.generated, "distinct": r3.distinct})
+    vlib.log("[C16] design checks %.1fs" % (time.time() - t0))
     # ---- 2. a small bounded product, replayed completely
     g = vlib.tlc("Vfs_MC", mc_cfg("gen_small", "product", emit=True, maxmaps=2, nroots=2, prefixes=("", "a"), shapes=("empty", "full"),
                                   maxlen=2, bases=("", "out") if quick else ("", "out", "r1", "r3"), invariants=[]),
@@ -357,10 +384,20 @@ def generate(rep, tier, rng):
     rep.extra["configurations"] = len(cfgs)
     rep.extra["requests"] = len(reqs)
     rep.extra["large_space_size"] = sum(1 + len(c["currents"]) for c in cfgs) * len(reqs)
-    n = 4000 if quick else 120000
+    vlib.log("[C16] generators done at %.1fs" % (time.time() - t0))
+    n = 3000 if quick else 120000
+    # stratified: number of mappings and request length / kind are drawn first (uniform draws from the plain product would be
+    # dominated by 3-mapping configurations and 4-segment requests that name nothing)
+    cfg_by = {}
+    for c in cfgs:
+        cfg_by.setdefault(len(c["mappings"]), []).append(c)
+    req_by = {}
+    for q in reqs:
+        req_by.setdefault(("phys" if q["base"] else "virt", len(q["segs"])), []).append(q)
+    cfg_keys, req_keys = sorted(cfg_by), sorted(req_by)
     for i in range(n):
-        c = rng.choice(cfgs)
-        q = rng.choice(reqs)
+        c = rng.choice(cfg_by[rng.choice(cfg_keys)])
+        q = rng.choice(req_by[rng.choice(req_keys)])
         cur = rng.choice(c["currents"]) if (c["currents"] and rng.random() < 0.4) else NOCUR
         st = rng.choice(STYLES)
         cases.append({"id": "g%d" % i, "mappings": c["mappings"], "trees": c["trees"], "req": dict(q, style=st), "cur": cur, "style": st})
